@@ -3,7 +3,7 @@ C07 — independent, ROM-side reading of a HAB4 container (i.MX RT10xx/11xx), wr
 (HAB4 API / CST user guide as summarised in the SPSDK doc-strings), NOT from the builder model: it shares no
 definition with `Model/Hab.lean` except `Bytes` and the integer codecs of `Model/Misc.lean`.
 
-`habCheck img dek` takes the exported container (first byte = IVT) and answers either a reason for refusal or a
+`habCheck c img dek` takes the exported container (first byte = IVT) and answers either a reason for refusal or a
 report with
   * the message the Authenticate-CSF signature has to cover (CSF header + commands, exactly),
   * the message the Authenticate-Data signature has to cover (the listed blocks, concatenated, exactly),
@@ -20,6 +20,9 @@ and it refuses unless
   * the key slots are used consistently (SRK -> slot 0, CSFK verified by slot 0 into slot 1, CSF authenticated with
     slot 1, image key verified by slot 0, data authenticated with an installed image key, decrypt key = installed secret key).
 Signature verification itself (CMS / X.509 / RSA / ECDSA) is done by the harness with `cryptography` / `asn1crypto`.
+
+Written without loops / mutable variables (explicit `bindE` / `chk` combinators, structural recursion) so that
+`Properties/C07.lean: rom_accepts` can be proved about it.
 -/
 import SpsdkVerif.Model.Misc
 import SpsdkVerif.Crypto.Modes
@@ -28,101 +31,179 @@ namespace SpsdkVerif.Spec.HabRom
 open SpsdkVerif SpsdkVerif.Misc
 
 abbrev Bytes := SpsdkVerif.Misc.Bytes
+abbrev R (α : Type) := Except String α
+
+/-- sequencing -/
+def bindE {α β : Type} (x : R α) (f : α → R β) : R β :=
+  match x with
+  | .ok a => f a
+  | .error e => .error e
+/-- continue with `k` when `c` holds, else refuse with `msg` -/
+def chk {α : Type} (c : Bool) (msg : String) (k : R α) : R α := if c then k else .error msg
 
 def sub (b : Bytes) (off len : Nat) : Bytes := (b.drop off).take len
 
-def u32le (b : Bytes) (off : Nat) : Except String Nat :=
-  let s := sub b off 4
-  if s.length = 4 then .ok (leDec s) else .error s!"short read (le32 at {off})"
-def u32be (b : Bytes) (off : Nat) : Except String Nat :=
-  let s := sub b off 4
-  if s.length = 4 then .ok (beDec s) else .error s!"short read (be32 at {off})"
-def u8at (b : Bytes) (off : Nat) : Except String Nat :=
-  match b[off]? with
-  | some x => .ok x.toNat
-  | none => .error s!"short read (byte at {off})"
-def u16be (b : Bytes) (off : Nat) : Except String Nat := do
-  let a ← u8at b off
-  let c ← u8at b (off + 1)
-  pure (a * 256 + c)
+def rdN (dec : Bytes → Nat) (b : Bytes) (off n : Nat) : R Nat :=
+  if (sub b off n).length = n then .ok (dec (sub b off n)) else .error s!"short read ({n} bytes at {off})"
+def u8at (b : Bytes) (off : Nat) : R Nat := rdN beDec b off 1
+def u16be (b : Bytes) (off : Nat) : R Nat := rdN beDec b off 2
+def u32be (b : Bytes) (off : Nat) : R Nat := rdN beDec b off 4
+def u32le (b : Bytes) (off : Nat) : R Nat := rdN leDec b off 4
 
 /-- one CSF command as the ROM sees it -/
 inductive RCmd where
   | insKey (flags proto alg src tgt loc : Nat)
   | autDat (flags key proto eng cfg loc : Nat) (blocks : List (Nat × Nat))
   | other (tag len : Nat)
-  deriving Repr
+  deriving Repr, DecidableEq
 
-def readBlocks (csf : Bytes) : Nat → Nat → Except String (List (Nat × Nat))
+def readBlocks (csf : Bytes) : Nat → Nat → R (List (Nat × Nat))
   | 0, _ => .ok []
-  | n + 1, off => do
-    let a ← u32be csf off
-    let s ← u32be csf (off + 4)
-    let r ← readBlocks csf n (off + 8)
-    pure ((a, s) :: r)
+  | n + 1, off =>
+    bindE (u32be csf off) fun a =>
+    bindE (u32be csf (off + 4)) fun s =>
+    bindE (readBlocks csf n (off + 8)) fun r =>
+    .ok ((a, s) :: r)
 
-/-- commands from `off` up to `stop` (fuel = number of bytes left) -/
-def readCmds (csf : Bytes) : Nat → Nat → Nat → Except String (List RCmd)
+def isOtherTag (tag : Nat) : Bool :=
+  tag == 0xB1 || tag == 0xB2 || tag == 0xB4 || tag == 0xC0 || tag == 0xCC || tag == 0xCF
+
+/-- the command at `off` (header already read) -/
+def readCmd (csf : Bytes) (off tag len par : Nat) : R RCmd :=
+  if tag = 0xBE then
+    chk (len == 12) s!"Install Key at {off}: length {len}" <|
+    bindE (u8at csf (off + 4)) fun proto =>
+    bindE (u8at csf (off + 5)) fun alg =>
+    bindE (u8at csf (off + 6)) fun src =>
+    bindE (u8at csf (off + 7)) fun tgt =>
+    bindE (u32be csf (off + 8)) fun loc =>
+    .ok (.insKey par proto alg src tgt loc)
+  else if tag = 0xCA then
+    chk (decide (12 ≤ len) && (len - 12) % 8 == 0) s!"Authenticate Data at {off}: length {len}" <|
+    bindE (u8at csf (off + 4)) fun key =>
+    bindE (u8at csf (off + 5)) fun proto =>
+    bindE (u8at csf (off + 6)) fun eng =>
+    bindE (u8at csf (off + 7)) fun cfg =>
+    bindE (u32be csf (off + 8)) fun loc =>
+    bindE (readBlocks csf ((len - 12) / 8) (off + 12)) fun bl =>
+    .ok (.autDat par key proto eng cfg loc bl)
+  else chk (isOtherTag tag) s!"unknown command tag {tag} at {off}" (.ok (.other tag len))
+
+/-- commands from `off` up to `stop` (fuel = upper bound on their number) -/
+def readCmds (csf : Bytes) : Nat → Nat → Nat → R (List RCmd)
   | 0, _, _ => .ok []
   | fuel + 1, off, stop =>
-    if off ≥ stop then .ok [] else do
-      let tag ← u8at csf off
-      let len ← u16be csf (off + 1)
-      let par ← u8at csf (off + 3)
-      if len < 4 ∨ len % 4 ≠ 0 ∨ off + len > stop then throw s!"command at {off}: bad length {len}"
-      let c ← (if tag = 0xBE then do
-                  if len ≠ 12 then throw s!"Install Key at {off}: length {len}"
-                  let proto ← u8at csf (off + 4)
-                  let alg ← u8at csf (off + 5)
-                  let src ← u8at csf (off + 6)
-                  let tgt ← u8at csf (off + 7)
-                  let loc ← u32be csf (off + 8)
-                  pure (RCmd.insKey par proto alg src tgt loc)
-                else if tag = 0xCA then do
-                  if len < 12 ∨ (len - 12) % 8 ≠ 0 then throw s!"Authenticate Data at {off}: length {len}"
-                  let key ← u8at csf (off + 4)
-                  let proto ← u8at csf (off + 5)
-                  let eng ← u8at csf (off + 6)
-                  let cfg ← u8at csf (off + 7)
-                  let loc ← u32be csf (off + 8)
-                  let bl ← readBlocks csf ((len - 12) / 8) (off + 12)
-                  pure (RCmd.autDat par key proto eng cfg loc bl)
-                else if tag = 0xB1 ∨ tag = 0xB2 ∨ tag = 0xB4 ∨ tag = 0xC0 ∨ tag = 0xCC ∨ tag = 0xCF then
-                  pure (RCmd.other tag len)
-                else throw s!"unknown command tag {tag} at {off}")
-      let r ← readCmds csf fuel (off + len) stop
-      pure (c :: r)
+    if off ≥ stop then .ok [] else
+    bindE (u8at csf off) fun tag =>
+    bindE (u16be csf (off + 1)) fun len =>
+    bindE (u8at csf (off + 3)) fun par =>
+    chk (decide (4 ≤ len) && len % 4 == 0 && decide (off + len ≤ stop)) s!"command at {off}: bad length {len}" <|
+    bindE (readCmd csf off tag len par) fun c =>
+    bindE (readCmds csf fuel (off + len) stop) fun r =>
+    .ok (c :: r)
 
 /-- a command-data block inside the CSF: `(offset, length)`; checks tag, alignment, position -/
-def dataRef (csf : Bytes) (hdrLen : Nat) (loc : Nat) (tag : Nat) (what : String) : Except String (Nat × Nat) := do
-  if loc < hdrLen then throw s!"{what}: data reference {loc} points into the commands"
-  if loc % 4 ≠ 0 then throw s!"{what}: data reference {loc} not 4-aligned"
-  let t ← u8at csf loc
-  let len ← u16be csf (loc + 1)
-  if t ≠ tag then throw s!"{what}: tag {t} at {loc}, expected {tag}"
-  if len < 4 ∨ loc + len > csf.length then throw s!"{what}: block at {loc} length {len} outside the CSF"
-  pure (loc, len)
+def dataRef (csf : Bytes) (hdrLen : Nat) (loc : Nat) (tag : Nat) (what : String) : R (Nat × Nat) :=
+  chk (decide (hdrLen ≤ loc)) s!"{what}: data reference {loc} points into the commands" <|
+  chk (loc % 4 == 0) s!"{what}: data reference {loc} not 4-aligned" <|
+  bindE (u8at csf loc) fun t =>
+  bindE (u16be csf (loc + 1)) fun len =>
+  chk (t == tag) s!"{what}: tag {t} at {loc}, expected {tag}" <|
+  chk (decide (4 ≤ len) && decide (loc + len ≤ csf.length)) s!"{what}: block at {loc} length {len} outside the CSF" <|
+  .ok (loc, len)
 
-def disjoint (rs : List (Nat × Nat)) : Bool :=
-  match rs with
+def disjoint : List (Nat × Nat) → Bool
   | [] => true
-  | (a, l) :: r => r.all (fun (b, m) => a + l ≤ b || b + m ≤ a || l = 0 || m = 0) && disjoint r
+  | (a, l) :: r => r.all (fun (b, m) => a + l ≤ b || b + m ≤ a || l == 0 || m == 0) && disjoint r
 
+/-- `[off, off+len)` inside ONE block (segments are never split by the builder; splitting would still be sound but is refused) -/
 def covered (blocks : List (Nat × Nat)) (off len : Nat) : Bool :=
-  -- [off, off+len) inside ONE block (segments are never split by the builder; splitting would still be sound but is refused)
-  len = 0 || blocks.any (fun (a, l) => a ≤ off && off + len ≤ a + l)
+  len == 0 || blocks.any (fun (a, l) => a ≤ off && off + len ≤ a + l)
 
-/-- every non-zero byte of `img[0:stop]` lies in a block -/
-def nonzeroCovered (img : Bytes) (blocks : List (Nat × Nat)) (stop : Nat) : Bool :=
-  let rec go (i : Nat) : Bytes → Bool
-    | [] => true
-    | x :: r => if i ≥ stop then true
-                else (x == 0 || blocks.any (fun (a, l) => a ≤ i && i < a + l)) && go (i + 1) r
-  go 0 img
+def inBlocks (blocks : List (Nat × Nat)) (i : Nat) : Bool := blocks.any (fun (a, l) => a ≤ i && i < a + l)
+
+/-- every non-zero byte of the list (whose first byte has index `i`) below `stop` lies in a block -/
+def nzCov (blocks : List (Nat × Nat)) (stop : Nat) : Nat → Bytes → Bool
+  | _, [] => true
+  | i, x :: r => (decide (stop ≤ i) || x == 0 || inBlocks blocks i) && nzCov blocks stop (i + 1) r
 
 def gather (img : Bytes) : List (Nat × Nat) → Bytes
   | [] => []
   | (a, l) :: r => sub img a l ++ gather img r
+
+/-- blocks given as addresses -> image offsets; each must lie in `[self, csf)` -/
+def toOffsets (self csf : Nat) : List (Nat × Nat) → R (List (Nat × Nat))
+  | [] => .ok []
+  | (a, l) :: r =>
+    chk (decide (self ≤ a) && decide (a + l ≤ csf)) s!"block {a}+{l} outside the image before the CSF" <|
+    bindE (toOffsets self csf r) fun t => .ok ((a - self, l) :: t)
+
+/-- state of the walk over the commands: key store (slot, kind: 0 SRK, 1 CSFK, 2 image key, 3 secret key) and what was found -/
+structure Walk where
+  slots : List (Nat × Nat) := []
+  srk : Option (Nat × Nat × Nat) := none       -- offset, length of the SRK table in the CSF, source index
+  csfCert : Option (Nat × Nat) := none
+  imgCert : Option (Nat × Nat) := none
+  csfSig : Option (Nat × Nat) := none
+  dataSig : Option (Nat × Nat) := none
+  macRef : Option (Nat × Nat) := none
+  auth : List (Nat × Nat) := []
+  dec : List (Nat × Nat) := []
+  refs : List (Nat × Nat) := []
+  secretLoc : Option Nat := none
+  deriving Repr
+
+def hasSlot (w : Walk) (slot kind : Nat) : Bool := w.slots.any (· == (slot, kind))
+
+def stepCmd (region : Bytes) (hdrLen self csf : Nat) (w : Walk) : RCmd → R Walk
+  | .insKey flags proto _alg src tgt loc =>
+    if proto = 0x03 then            -- SRK table
+      chk (flags == 0 && tgt == 0 && decide (src ≤ 3)) s!"Install SRK: flags {flags} source {src} target {tgt}" <|
+      chk w.srk.isNone "two Install SRK commands" <|
+      bindE (dataRef region hdrLen loc 0xD7 "SRK table") fun r =>
+      .ok { w with srk := some (r.1, r.2, src), refs := r :: w.refs, slots := (0, 0) :: w.slots }
+    else if proto = 0x09 then       -- X.509 certificate
+      bindE (dataRef region hdrLen loc 0xD7 "certificate") fun r =>
+      chk (hasSlot w src 0) s!"Install Key: verification key slot {src} holds no SRK" <|
+      if flags = 2 then
+        chk (tgt == 1) s!"Install CSFK into slot {tgt}" <|
+        .ok { w with csfCert := some r, slots := (1, 1) :: w.slots, refs := r :: w.refs }
+      else if flags = 0 then
+        chk (decide (2 ≤ tgt) && decide (tgt ≤ 5)) s!"Install Key into slot {tgt}" <|
+        chk w.csfSig.isSome "Install Key before Authenticate CSF" <|
+        .ok { w with imgCert := some r, slots := (tgt, 2) :: w.slots, refs := r :: w.refs }
+      else .error s!"Install Key flags {flags}"
+    else if proto = 0xBB then       -- wrapped secret key (DEK blob), absolute address
+      chk (flags == 1) s!"Install Secret Key flags {flags}" <|
+      chk (decide (src ≤ 3) && decide (tgt ≤ 3)) s!"Install Secret Key: KEK {src} target {tgt}" <|
+      .ok { w with secretLoc := some loc, slots := (tgt, 3) :: w.slots }
+    else .error s!"Install Key protocol {proto}"
+  | .autDat flags key proto _eng _cfg loc blocks =>
+    chk (flags == 0) s!"Authenticate Data flags {flags}" <|
+    bindE (toOffsets self csf blocks) fun offs =>
+    if proto = 0xC5 then
+      bindE (dataRef region hdrLen loc 0xD8 "signature") fun r =>
+      if blocks.isEmpty then
+        chk (key == 1 && hasSlot w 1 1) s!"Authenticate CSF with key slot {key}" <|
+        chk w.csfSig.isNone "two Authenticate CSF commands" <|
+        .ok { w with csfSig := some r, refs := r :: w.refs }
+      else
+        chk w.csfSig.isSome "Authenticate Data before Authenticate CSF" <|
+        chk (hasSlot w key 2) s!"Authenticate Data: key slot {key} holds no image key" <|
+        chk w.dataSig.isNone "two Authenticate Data commands" <|
+        .ok { w with dataSig := some r, auth := offs, refs := r :: w.refs }
+    else if proto = 0xA3 then
+      bindE (dataRef region hdrLen loc 0xAC "MAC") fun r =>
+      chk (hasSlot w key 3) s!"Decrypt Data: key slot {key} holds no secret key" <|
+      chk (!blocks.isEmpty) "Decrypt Data without blocks" <|
+      chk w.macRef.isNone "two Decrypt Data commands" <|
+      .ok { w with macRef := some r, dec := offs, refs := r :: w.refs }
+    else .error s!"Authenticate Data protocol {proto}"
+  | .other _ _ => .ok w
+
+def walk (region : Bytes) (hdrLen self csf : Nat) : Walk → List RCmd → R Walk
+  | w, [] => .ok w
+  | w, c :: r => bindE (stepCmd region hdrLen self csf w c) fun w' => walk region hdrLen self csf w' r
 
 structure Report where
   ivtSelf : Nat
@@ -143,151 +224,116 @@ structure Report where
   plain : Option Bytes
   deriving Repr
 
-def habCheck (c : Crypto.CryptoOps) (img : Bytes) (dek : Option Bytes) : Except String Report := do
-  -- IVT
-  let tag ← u8at img 0
-  let ilen ← u16be img 1
-  let ver ← u8at img 3
-  if tag ≠ 0xD1 ∨ ilen ≠ 32 ∨ ver / 16 ≠ 4 then throw s!"IVT header {tag} {ilen} {ver}"
-  let entry ← u32le img 4
-  let dcd ← u32le img 12
-  let bdp ← u32le img 16
-  let self ← u32le img 20
-  let csf ← u32le img 24
-  if bdp ≠ self + 32 then throw s!"boot data pointer {bdp} is not IVT+32"
-  let start ← u32le img 32
-  let blen ← u32le img 36
-  let plugin ← u32le img 40
-  if plugin ≠ 0 then throw "plugin flag set"
-  if start > self then throw "image start behind the IVT"
-  let ivtOff := self - start
-  -- DCD / XMCD extents from their own headers
-  let dcdLen ← (if dcd = 0 then pure 0 else do
-      if dcd ≠ self + 64 then throw s!"DCD pointer {dcd} is not IVT+64"
-      let t ← u8at img 64
-      if t ≠ 0xD2 then throw s!"no DCD header where the IVT points (tag {t})"
-      u16be img 65)
-  let xb ← (if img.length ≥ 68 then u8at img 67 else pure 0)
-  let xmcdLen ← (if dcd = 0 ∧ xb = 0xC0 then do
-      let lo ← u8at img 64
-      let hi ← u8at img 65
-      pure ((hi % 16) * 256 + lo) else pure 0)
-  if csf = 0 then
-    if blen ≠ ivtOff + img.length then throw s!"boot data length {blen}, real size {ivtOff + img.length}"
-    if entry < self ∨ entry ≥ self + img.length then throw "entry point outside the image"
-    return { ivtSelf := self, start := start, csfOff := 0, hdrLen := 0, srk := none, csfCert := none, csfSig := none,
-             imgCert := none, dataSig := none, msgCsf := [], msgData := [], authBlocks := [], decBlocks := [],
-             nonce := [], mac := [], plain := none }
-  -- CSF
-  if csf < self + 64 then throw "CSF pointer inside IVT/boot data"
-  let csfOff := csf - self
-  let region := sub img csfOff 0x2000
-  if csfOff + 0x2000 ≠ img.length then throw s!"CSF at {csfOff} does not end the image ({img.length})"
-  let ct ← u8at region 0
-  let hdrLen ← u16be region 1
-  let cver ← u8at region 3
-  if ct ≠ 0xD4 ∨ cver / 16 ≠ 4 ∨ hdrLen < 4 then throw s!"CSF header {ct} {hdrLen} {cver}"
-  let cmds ← readCmds region hdrLen 4 hdrLen
-  -- walk the commands with a key store: slot -> 0 SRK, 1 CSFK, 2 image key, 3 secret key
-  let mut slots : List (Nat × Nat) := []
-  let mut srk : Option (Nat × Nat × Nat) := none
-  let mut csfCert : Option (Nat × Nat) := none
-  let mut imgCert : Option (Nat × Nat) := none
-  let mut csfSig : Option (Nat × Nat) := none
-  let mut dataSig : Option (Nat × Nat) := none
-  let mut macRef : Option (Nat × Nat) := none
-  let mut auth : List (Nat × Nat) := []
-  let mut dec : List (Nat × Nat) := []
-  let mut refs : List (Nat × Nat) := []
-  let mut secretLoc : Option Nat := none
-  for cmd in cmds do
-    match cmd with
-    | .insKey flags proto _alg src tgt loc =>
-      if proto = 0x03 then            -- SRK table
-        if flags ≠ 0 ∨ tgt ≠ 0 ∨ src > 3 then throw s!"Install SRK: flags {flags} source {src} target {tgt}"
-        if srk.isSome then throw "two Install SRK commands"
-        let r ← dataRef region hdrLen loc 0xD7 "SRK table"
-        srk := some (r.1, r.2, src); refs := r :: refs; slots := (0, 0) :: slots
-      else if proto = 0x09 then       -- X.509 certificate
-        let r ← dataRef region hdrLen loc 0xD7 "certificate"
-        if !(slots.any (· == (src, 0))) then throw s!"Install Key: verification key slot {src} holds no SRK"
-        if flags = 2 then
-          if tgt ≠ 1 then throw s!"Install CSFK into slot {tgt}"
-          csfCert := some r; slots := (1, 1) :: slots
-        else if flags = 0 then
-          if tgt < 2 ∨ tgt > 5 then throw s!"Install Key into slot {tgt}"
-          if csfSig.isNone then throw "Install Key before Authenticate CSF"
-          imgCert := some r; slots := (tgt, 2) :: slots
-        else throw s!"Install Key flags {flags}"
-        refs := r :: refs
-      else if proto = 0xBB then       -- wrapped secret key (DEK blob), absolute address
-        if flags ≠ 1 then throw s!"Install Secret Key flags {flags}"
-        if src > 3 ∨ tgt > 3 then throw s!"Install Secret Key: KEK {src} target {tgt}"
-        secretLoc := some loc; slots := (tgt, 3) :: slots
-      else throw s!"Install Key protocol {proto}"
-    | .autDat flags key proto _eng _cfg loc blocks =>
-      if flags ≠ 0 then throw s!"Authenticate Data flags {flags}"
-      -- blocks as image offsets
-      let mut offs : List (Nat × Nat) := []
-      for (a, l) in blocks do
-        if a < self ∨ a + l > csf then throw s!"block {a}+{l} outside the image before the CSF"
-        offs := offs ++ [(a - self, l)]
-      if proto = 0xC5 then
-        let r ← dataRef region hdrLen loc 0xD8 "signature"
-        refs := r :: refs
-        if blocks.isEmpty then
-          if key ≠ 1 ∨ !(slots.any (· == (1, 1))) then throw s!"Authenticate CSF with key slot {key}"
-          if csfSig.isSome then throw "two Authenticate CSF commands"
-          csfSig := some r
-        else
-          if csfSig.isNone then throw "Authenticate Data before Authenticate CSF"
-          if !(slots.any (· == (key, 2))) then throw s!"Authenticate Data: key slot {key} holds no image key"
-          if dataSig.isSome then throw "two Authenticate Data commands"
-          dataSig := some r; auth := offs
-      else if proto = 0xA3 then
-        let r ← dataRef region hdrLen loc 0xAC "MAC"
-        refs := r :: refs
-        if !(slots.any (· == (key, 3))) then throw s!"Decrypt Data: key slot {key} holds no secret key"
-        if blocks.isEmpty then throw "Decrypt Data without blocks"
-        if macRef.isSome then throw "two Decrypt Data commands"
-        macRef := some r; dec := offs
-      else throw s!"Authenticate Data protocol {proto}"
-    | .other _ _ => pure ()
-  if csfSig.isNone then throw "no Authenticate CSF command"
-  if dataSig.isNone then throw "no Authenticate Data command"
-  if !disjoint refs then throw "command data blocks overlap"
-  let all := auth ++ dec
-  if !disjoint all then throw s!"authenticated / decrypted blocks overlap: {all}"
-  if !covered all 0 64 then throw s!"IVT + boot data not covered by {all}"
-  if !covered all 64 dcdLen then throw s!"DCD (64+{dcdLen}) not covered by {all}"
-  if !covered all 64 xmcdLen then throw s!"XMCD (64+{xmcdLen}) not covered by {all}"
-  if !nonzeroCovered img all csfOff then throw s!"a non-zero byte before the CSF is in no authenticated / decrypted block {all}"
-  if entry < self ∨ !(all.any (fun (a, l) => a ≤ entry - self && entry - self < a + l)) then
-    throw "entry point not inside an authenticated / decrypted block"
-  -- sizes
-  let blob := if macRef.isSome then 0x200 else 0
-  if blen ≠ ivtOff + img.length + blob then throw s!"boot data length {blen}, real size {ivtOff + img.length} + key blob {blob}"
-  match secretLoc, macRef with
-  | some l, some _ => if l ≠ csf + 0x2000 then throw s!"DEK blob location {l} is not directly behind the CSF ({csf + 0x2000})"
-  | none, some _ => throw "Decrypt Data without Install Secret Key"
-  | _, none => pure ()
-  -- MAC / decryption
-  let (nonce, mac) ← (match macRef with
-    | none => pure (([] : Bytes), ([] : Bytes))
-    | some (o, l) => do
-      let nl ← u8at region (o + 5)
-      let ml ← u8at region (o + 7)
-      if l ≠ 8 + nl + ml then throw s!"MAC block length {l} vs nonce {nl} + mac {ml}"
-      if ml < 4 ∨ ml > 16 ∨ ml % 2 ≠ 0 ∨ nl < 7 ∨ nl > 13 then throw s!"MAC parameters nonce {nl} mac {ml}"
-      pure (sub region (o + 8) nl, sub region (o + 8 + nl) ml))
-  let plain ← (match macRef, dek with
-    | some _, some k =>
-      match Crypto.ccmDec c k nonce [] mac.length (gather img dec ++ mac) with
-      | some p => pure (some p)
-      | none => throw "AES-CCM tag mismatch: the listed blocks do not decrypt under DEK / nonce / MAC"
-    | _, _ => pure none)
-  return { ivtSelf := self, start := start, csfOff := csfOff, hdrLen := hdrLen, srk := srk, csfCert := csfCert,
-           csfSig := csfSig, imgCert := imgCert, dataSig := dataSig, msgCsf := region.take hdrLen,
-           msgData := gather img auth, authBlocks := auth, decBlocks := dec, nonce := nonce, mac := mac, plain := plain }
+/-- the IVT and the boot data it points at -/
+structure View where
+  entry : Nat
+  dcd : Nat
+  self : Nat
+  csf : Nat
+  start : Nat
+  blen : Nat
+  deriving Repr, DecidableEq
+
+def readView (img : Bytes) : R View :=
+  bindE (u8at img 0) fun tag =>
+  bindE (u16be img 1) fun ilen =>
+  bindE (u8at img 3) fun ver =>
+  chk (tag == 0xD1 && ilen == 32 && ver / 16 == 4) s!"IVT header {tag} {ilen} {ver}" <|
+  bindE (u32le img 4) fun entry =>
+  bindE (u32le img 12) fun dcd =>
+  bindE (u32le img 16) fun bdp =>
+  bindE (u32le img 20) fun self =>
+  bindE (u32le img 24) fun csf =>
+  chk (bdp == self + 32) s!"boot data pointer {bdp} is not IVT+32" <|
+  bindE (u32le img 32) fun start =>
+  bindE (u32le img 36) fun blen =>
+  bindE (u32le img 40) fun plugin =>
+  chk (plugin == 0) "plugin flag set" <|
+  chk (decide (start ≤ self)) "image start behind the IVT" <|
+  .ok { entry := entry, dcd := dcd, self := self, csf := csf, start := start, blen := blen }
+
+/-- DCD / XMCD extents from their own headers: `(dcdLen, xmcdLen)` -/
+def frontLens (img : Bytes) (v : View) : R (Nat × Nat) :=
+  bindE (if v.dcd = 0 then .ok 0 else
+      chk (v.dcd == v.self + 64) s!"DCD pointer {v.dcd} is not IVT+64" <|
+      bindE (u8at img 64) fun t =>
+      chk (t == 0xD2) s!"no DCD header where the IVT points (tag {t})" <|
+      u16be img 65) fun dcdLen =>
+  bindE (if img.length ≥ 68 then u8at img 67 else .ok 0) fun xb =>
+  bindE (if v.dcd = 0 ∧ xb = 0xC0 then
+      bindE (u8at img 64) fun lo =>
+      bindE (u8at img 65) fun hi =>
+      .ok ((hi % 16) * 256 + lo) else .ok 0) fun xmcdLen =>
+  .ok (dcdLen, xmcdLen)
+
+def plainReport (v : View) : Report :=
+  { ivtSelf := v.self, start := v.start, csfOff := 0, hdrLen := 0, srk := none, csfCert := none, csfSig := none,
+    imgCert := none, dataSig := none, msgCsf := [], msgData := [], authBlocks := [], decBlocks := [],
+    nonce := [], mac := [], plain := none }
+
+/-- nonce and MAC of the MAC block at `(o, l)` -/
+def readMac (region : Bytes) : Option (Nat × Nat) → R (Bytes × Bytes)
+  | none => .ok ([], [])
+  | some (o, l) =>
+    bindE (u8at region (o + 5)) fun nl =>
+    bindE (u8at region (o + 7)) fun ml =>
+    chk (l == 8 + nl + ml) s!"MAC block length {l} vs nonce {nl} + mac {ml}" <|
+    chk (decide (4 ≤ ml) && decide (ml ≤ 16) && ml % 2 == 0 && decide (7 ≤ nl) && decide (nl ≤ 13)) s!"MAC parameters nonce {nl} mac {ml}" <|
+    .ok (sub region (o + 8) nl, sub region (o + 8 + nl) ml)
+
+def decryptBlocks (c : Crypto.CryptoOps) (img : Bytes) (w : Walk) (nonce mac : Bytes) : Option Bytes → R (Option Bytes)
+  | none => .ok none
+  | some k =>
+    if w.macRef.isSome then
+      match Crypto.ccmDec c k nonce [] mac.length (gather img w.dec ++ mac) with
+      | some p => .ok (some p)
+      | none => .error "AES-CCM tag mismatch: the listed blocks do not decrypt under DEK / nonce / MAC"
+    else .ok none
+
+/-- the checks after the walk -/
+def finish (c : Crypto.CryptoOps) (img region : Bytes) (v : View) (csfOff hdrLen dcdLen xmcdLen : Nat) (w : Walk)
+    (dek : Option Bytes) : R Report :=
+  let all := w.auth ++ w.dec
+  let ivtOff := v.self - v.start
+  let blob := if w.macRef.isSome then 0x200 else 0
+  chk w.csfSig.isSome "no Authenticate CSF command" <|
+  chk w.dataSig.isSome "no Authenticate Data command" <|
+  chk (disjoint w.refs) "command data blocks overlap" <|
+  chk (disjoint all) s!"authenticated / decrypted blocks overlap: {all}" <|
+  chk (covered all 0 64) s!"IVT + boot data not covered by {all}" <|
+  chk (covered all 64 dcdLen) s!"DCD (64+{dcdLen}) not covered by {all}" <|
+  chk (covered all 64 xmcdLen) s!"XMCD (64+{xmcdLen}) not covered by {all}" <|
+  chk (nzCov all csfOff 0 img) s!"a non-zero byte before the CSF is in no authenticated / decrypted block {all}" <|
+  chk (decide (v.self ≤ v.entry) && inBlocks all (v.entry - v.self)) "entry point not inside an authenticated / decrypted block" <|
+  chk (v.blen == ivtOff + img.length + blob) s!"boot data length {v.blen}, real size {ivtOff + img.length} + key blob {blob}" <|
+  chk (match w.secretLoc, w.macRef with
+       | some l, some _ => l == v.csf + 0x2000
+       | none, some _ => false
+       | _, none => true) "DEK blob is not located directly behind the CSF / Decrypt Data without Install Secret Key" <|
+  bindE (readMac region w.macRef) fun nm =>
+  bindE (decryptBlocks c img w nm.1 nm.2 dek) fun plain =>
+  .ok { ivtSelf := v.self, start := v.start, csfOff := csfOff, hdrLen := hdrLen, srk := w.srk, csfCert := w.csfCert,
+        csfSig := w.csfSig, imgCert := w.imgCert, dataSig := w.dataSig, msgCsf := region.take hdrLen,
+        msgData := gather img w.auth, authBlocks := w.auth, decBlocks := w.dec, nonce := nm.1, mac := nm.2, plain := plain }
+
+def habCheck (c : Crypto.CryptoOps) (img : Bytes) (dek : Option Bytes) : R Report :=
+  bindE (readView img) fun v =>
+  bindE (frontLens img v) fun lens =>
+  if v.csf = 0 then
+    chk (v.blen == v.self - v.start + img.length) s!"boot data length {v.blen}, real size {v.self - v.start + img.length}" <|
+    chk (decide (v.self ≤ v.entry) && decide (v.entry < v.self + img.length)) "entry point outside the image" <|
+    .ok (plainReport v)
+  else
+    chk (decide (v.self + 64 ≤ v.csf)) "CSF pointer inside IVT/boot data" <|
+    let csfOff := v.csf - v.self
+    let region := sub img csfOff 0x2000
+    chk (csfOff + 0x2000 == img.length) s!"CSF at {csfOff} does not end the image ({img.length})" <|
+    bindE (u8at region 0) fun ct =>
+    bindE (u16be region 1) fun hdrLen =>
+    bindE (u8at region 3) fun cver =>
+    chk (ct == 0xD4 && cver / 16 == 4 && decide (4 ≤ hdrLen)) s!"CSF header {ct} {hdrLen} {cver}" <|
+    bindE (readCmds region hdrLen 4 hdrLen) fun cmds =>
+    bindE (walk region hdrLen v.self v.csf {} cmds) fun w =>
+    finish c img region v csfOff hdrLen lens.1 lens.2 w dek
 
 end SpsdkVerif.Spec.HabRom
